@@ -221,18 +221,30 @@ def _unit(srcs: dict) -> str:
     return '\n'.join(s) + '\n'
 
 
-_LIB = None
+# one compilation unit per group of functions: an edit that stops one group from compiling stand-alone (a new helper, a new
+# type) is reported for the functions of that group only
+GROUPS = [['fix_offset'], ['t_abs', 'subm_elem', 'margin_of', 'erode_sub', 'erode_sub_bool', 'dilate_add', 'dilate_add_bool'],
+          ['isLeft', 'forward_cmp', 'reverse_cmp'], ['at_flat', 'pos_to_flat', 'flat_to_pos'],
+          ['sum_rect', 'csum_rect', 'haar_x', 'haar_y'], ['roll_right', 'lbp_map']]
+_LIB = {}
+_SRCS = None
 
 
-def _lib():
-    """(ctypes library | None, error text | None) for the function texts of the current tree"""
-    global _LIB
-    if _LIB is not None:
-        return _LIB
-    import sys
-    sys.path.insert(0, str(core.VERIF))
-    from translator import cscalar as tr
-    srcs = tr.extracted_sources(core.REPO)
+def _lib(fn: str):
+    """(ctypes library | None, error text | None, sources) for the group of `fn`, from the function texts of the current tree"""
+    global _SRCS
+    group = next((g for g in GROUPS if fn in g), None)
+    if group is None:
+        return None, f'no compilation group for {fn}', {}
+    key = group[0]
+    if key in _LIB:
+        return _LIB[key]
+    if _SRCS is None:
+        import sys
+        sys.path.insert(0, str(core.VERIF))
+        from translator import cscalar as tr
+        _SRCS = tr.extracted_sources(core.REPO)
+    srcs = {k: v for k, v in _SRCS.items() if k in group}
     unit = _unit(srcs)
     h = hashlib.sha256(unit.encode()).hexdigest()[:20]
     core.CACHE.mkdir(parents=True, exist_ok=True)
@@ -251,10 +263,10 @@ def _lib():
         finally:
             fcntl.flock(lk, fcntl.LOCK_UN)
     if not ok:
-        _LIB = (None, (d / 'build.log').read_text()[-1500:], srcs)
+        _LIB[key] = (None, (d / 'build.log').read_text()[-1500:], srcs)
     else:
-        _LIB = (ctypes.CDLL(str(d / 'unit.so')), None, srcs)
-    return _LIB
+        _LIB[key] = (ctypes.CDLL(str(d / 'unit.so')), None, srcs)
+    return _LIB[key]
 
 
 def _signed(v: int, dt: str) -> int:
@@ -265,7 +277,7 @@ def _signed(v: int, dt: str) -> int:
 
 
 def _real_rows(case):
-    lib, err, srcs = _lib()
+    lib, err, srcs = _lib(case['fn'])
     if lib is None:
         return None, 'stand-alone compilation of the extracted text failed: ' + (err or '')
     fn, dt = case['fn'], case.get('dt')
